@@ -63,8 +63,9 @@ def offdiag_matrix(p, code, dtype):
 
 def adversarial(rng, fam_idx):
     p = int(rng.integers(1, 11))
-    kind = fam_idx % 8
+    kind = fam_idx % 10
     dag = gmat.random_dag_masks(rng, p)
+    tiny = lambda: float(rng.choice([-1, 1])) * float(rng.choice([1e-9, 1e-12, 1e-100, 1e-300, 5e-324]))
     if kind == 0:      # DAG, cancelling columns
         A = gmat.weighted(rng, dag, "cancel")
     elif kind == 1:    # DAG, arbitrary signed weights
@@ -98,7 +99,19 @@ def adversarial(rng, fam_idx):
         A = gmat.weighted(rng, dag, "cancel", dtype=int)
         if A.dtype != int:
             A = np.sign(A).astype(int)
-    else:              # random dense signed matrix (mostly cyclic), sparse variant too
+    elif kind == 8:    # an upper-triangular (identity-ordered) DAG plus ONE tiny back edge or tiny self-loop
+        A = np.triu(rng.uniform(0.5, 2, size=(p, p)) * (rng.random((p, p)) < 0.5), k=1)
+        if p >= 2 and rng.random() < 0.7:
+            a, b = sorted(rng.choice(p, 2, replace=False))
+            A[b, a] = tiny()
+            if A[a, b] == 0 and rng.random() < 0.5:
+                A[a, b] = 1.0
+        else:
+            a = int(rng.integers(p))
+            A[a, a] = tiny()
+    elif kind == 9:    # DAG whose weights are all tiny (must still be a DAG with a valid order), random labelling
+        A = gmat.weighted(rng, dag, "tiny")
+    else:              # (kind 7) random dense signed matrix (mostly cyclic), sparse variant too
         dens = rng.uniform(0.05, 0.5)
         A = (rng.random((p, p)) < dens) * rng.choice([-1.0, 1.0], size=(p, p)) * rng.uniform(0.1, 2, size=(p, p))
         if rng.random() < 0.7:
@@ -152,6 +165,10 @@ def judge(family, case, rec):
     else:
         A = case["A"]
         key = None
+    if family != "constructor":
+        h = int(abs(float(np.abs(A).sum()) * 1000)) % 97 + len(A) if np.isfinite(A).all() else 0
+        A = gmat.hostile_array(A, h)     # re-used buffer / Fortran order / strided view / read-only / other dtype
+        rec.count("presentation:%d" % (h % 8))
     out = gmat.masks(A)
     cyclic = G.has_cycle(out)
     if cyclic != _kahn_cyclic(out):
